@@ -183,9 +183,10 @@ def render(spec):
     # condition functions, error classes ("adef" style: conditions and captures are coroutine functions that suspend once
     # before they log; legal on async callables only)
     # "amix" style: every other condition / capture (the even ones of its role and level, i.e. the nearest one first) is a
-    # coroutine function, the others are plain functions
+    # coroutine function, the others are plain functions; from level to level the parity alternates
     def _co(name):
-        return spec["style"] == "adef" or (spec["style"] == "amix" and int(name.rsplit("_", 1)[-1]) % 2 == 0)
+        # (parity of level + index: an inherited coroutine capture is followed by a plain one of the next level and vice versa)
+        return spec["style"] == "adef" or (spec["style"] == "amix" and (int(name[1:].split("_")[0]) + int(name.rsplit("_", 1)[-1])) % 2 == 0)
 
     def ADEF_(name):
         return "async " if _co(name) else ""
